@@ -13,6 +13,17 @@ def load(name):
     return json.load(open(p)) if os.path.exists(p) else {}
 
 
+# round 1: seeds that the property's own check did not report on its first run (the checks were strengthened afterwards)
+ROUND1_MISSED_AT_FIRST = {
+    "C03-bitunit-enum-overcount", "C06-compiled-substruct-no-bit-reset", "C08-bitfield-unit-partial-read", "C11-rebuild-skip-unchanged",
+    "C11-proxify-skip-nested-union", "C13-defs-split-space-before-comma", "C14-anon-member-default-shared", "C17-copy-defaults-folded-fields",
+    "C16-charptr-block-read-truncate", "C19-hexdump-prefix-template", "C19-pack-width-rounding", "C20-enum-typedef-alias-lost",
+    "C20-multidim-nested-inline",
+}
+# round 2: first-run exits that were 1 only because of a false alarm of the check itself (corrected, DESIGN section 11)
+ROUND2_FALSE_CATCH = {"C03-r2-nested-char-array-packed"}
+
+
 def main():
     final = load("RESULTS.json")
     first = {}
@@ -32,13 +43,18 @@ def main():
         if own:
             how = f"exit {own.get('exit')}, {own.get('violations')} VIOLATION lines, {own.get('with_reproduced_input')} with a replayed input"
         files = ",".join(os.path.basename(f) for f in meta.get("files", []))
-        rows.append((seed, prop, files, ", ".join(caught) or "**missed**", how, "caught" if ini_own == 1 else ("missed at first" if ini_own == 0 else "n/a")))
+        if "-r2-" in seed:
+            first_run = "caught" if (ini_own == 1 and seed not in ROUND2_FALSE_CATCH) else "missed at first"
+        else:
+            first_run = "missed at first" if seed in ROUND1_MISSED_AT_FIRST else "caught"
+        rows.append((seed, prop, files, ", ".join(caught) or "**missed**", how, first_run))
     print("| seeded change | property | file | caught by | own check | first run |")
     print("|---|---|---|---|---|---|")
     for r in rows:
         print("| " + " | ".join(str(x) for x in r) + " |")
     print()
-    print(f"{len(rows)} seeded changes; caught by their own property's check: {sum(1 for r in rows if r[1] in r[3])}; missed: {[r[0] for r in rows if 'missed' in r[3] and '**' in r[3]]}")
+    print(f"{len(rows)} seeded changes; caught by their own property's check: {sum(1 for r in rows if r[1] in r[3])}; still missed: {[r[0] for r in rows if '**' in r[3]]}; "
+          f"caught on the first run: {sum(1 for r in rows if r[5] == 'caught')}")
 
 
 if __name__ == "__main__":
